@@ -327,3 +327,44 @@ def _move_classes(classes, src, dst):
     for p in list(classes):
         if p == src or is_under(p, src):
             classes[dst + p[len(src) :]] = classes.pop(p)
+
+
+# ---------------------------------------------------------------------------
+# small multi-module programs (workload for real refactorings)
+
+PROGRAM_TEMPLATES = [
+    {
+        "m1.py": "def foo(a):\n    return a + 1\n\n\nclass K:\n    attr = 1\n\n    def meth(self):\n        return foo(self.attr)\n\n\nconst = 10\n",
+        "m2.py": "from m1 import foo, K\n\nv = foo(2)\nk = K()\nw = k.meth()\n",
+        "pkg/__init__.py": "",
+        "pkg/m3.py": "import m1\nfrom m2 import v\n\n\ndef bar():\n    return m1.foo(v) + m1.const\n",
+        "pkg/m4.py": "from pkg import m3\nfrom pkg.m3 import bar\n\nr = bar()\ns = m3.bar()\n",
+    },
+    {
+        "alpha.py": "import beta\n\n\ndef run():\n    b = beta.Box(3)\n    return b.get()\n",
+        "beta.py": "class Box:\n    def __init__(self, v):\n        self.v = v\n\n    def get(self):\n        return self.v\n\n\ndef make():\n    return Box(1)\n",
+        "sub/__init__.py": "from beta import make\n",
+        "sub/gamma.py": "from sub import make\nimport alpha\n\nthing = make()\nout = alpha.run()\n",
+    },
+]
+
+PROGRAM_IDENTS = ["foo", "K", "const", "meth", "bar", "v", "Box", "get", "make", "run", "thing", "m1", "m3", "beta", "alpha", "attr"]
+NEW_IDENTS = ["renamed", "Other", "zed", "qux", "newmod", "item"]
+
+
+def gen_program(rng, swarm=None):
+    tpl = rng.choice(PROGRAM_TEMPLATES)
+    nl = rng.choice(["lf", "lf", "crlf", "cr"])
+    entries = []
+    dirs = set()
+    for p in sorted(tpl):
+        d = p.rsplit("/", 1)[0] if "/" in p else ""
+        if d and d not in dirs:
+            dirs.add(d)
+            entries.append({"p": d, "dir": True})
+    for p in sorted(tpl):
+        text = tpl[p]
+        if rng.random() < 0.3 and text:
+            text = text + "note = 'café Жук'\n"
+        entries.append({"p": p, "text": text, "nl": nl if rng.random() < 0.8 else "lf", "enc": "utf-8", "cls": None, "cookie": None})
+    return entries
